@@ -860,6 +860,8 @@ MODULE_FULL = "ProbLogProofs.Properties.C01GroundFOFull"
 THEOREMS_FULL = {
     "all": ["ProbLogProofs.C01GroundFO.C01_groundFO_correct_wfm_partial",
             "ProbLogProofs.C01GroundFO.C01_groundFO_correct_truthFO_partial",
+            "ProbLogProofs.C01GroundFO.C01_groundFO_reported_in_range",
+            "ProbLogProofs.C01GroundFO.C01_groundFO_CorrectFO_of_returns",
             "ProbLogProofs.GroundFOSem.mspec_isModelFO", "ProbLogProofs.GroundFOSem.specOKb_sound",
             "ProbLogProofs.C01GroundFO.exF2_specOK", "ProbLogProofs.C01GroundFO.C01_groundFO_correct_wfm_exF2"],
     "sched": ["ProbLogProofs.C01GroundFO.C03_groundFO_schedule_independent_wfm_partial"],
@@ -867,17 +869,27 @@ THEOREMS_FULL = {
 }
 
 
+MODULE_TOTAL = "ProbLogProofs.Properties.C01GroundFOTotal"
+THEOREMS_TOTAL = ["ProbLogProofs.C01GroundFO.C01_groundFO_instantiation_total",
+                  "ProbLogProofs.C01GroundFO.C01_groundFO_fuel_sufficient",
+                  "ProbLogProofs.C01GroundFO.prankb_sound", "ProbLogProofs.C01GroundFO.exN_fuel",
+                  "ProbLogProofs.C01GroundFO.exN_specOK", "ProbLogProofs.C01GroundFO.C01_groundFO_correct_wfm_exN"]
+
+
 def semantic_check(ctx, sdrv, items, reals, kind, rng):
     """The statement `C01GroundFO.CorrectFO` is CHECKED per program by executing the Lean definitions
     (`Drivers.GroundFOCheck`): in several worlds every reported key of the model evaluates to `Sem.wfm` of the Herbrand
     instantiation `GroundFO.inst`, and every instance that is not reported is false - under the recorded schedule and
     under an arbitrary one.  It is also PROVED for the model in partial-correctness form (`C01GroundFOFull.lean`:
-    whenever the model returns; hypotheses `SpecOK`, decided per program below); the executable check stays as the
-    independent test of the statement and covers termination on the programs run."""
+    whenever the model returns; hypotheses `SpecOK`, decided per program below; reported tuples proved in range; fuel
+    sufficiency and total correctness on the instantiation route in `C01GroundFOTotal.lean`); the executable check stays
+    as the independent test of the statement and covers termination on the programs run."""
     if kind == "all":
         ctx.proof_phase(MODULE_SPEC, THEOREMS_SPEC)
         ctx.proof_phase(MODULE_TRUTH, THEOREMS_TRUTH)
     ctx.proof_phase(MODULE_FULL, THEOREMS_FULL[kind])
+    if kind == "all":
+        ctx.proof_phase(MODULE_TOTAL, THEOREMS_TOTAL)
     cdrv = ctx.driver("Drivers.GroundFOCheck")
     if cdrv is None:
         return
